@@ -21,7 +21,7 @@ ASSUMPTIONS = [
 ]
 
 KIND_OPS = ["const", "query", "add", "alias", "lowest", "draw", "accumulate", "pool", "pool_index", "pool_slice", "matmul_p",
-            "flatten", "roller", "annotate", "setitem", "delitem", "rejected", "query", "query", "query", "select", "shorthand", "shorthand", "retype", "retype", "draw", "pool_twin", "pool_twin", "rsources", "subst_fail"]
+            "flatten", "roller", "annotate", "setitem", "delitem", "rejected", "query", "query", "query", "select", "shorthand", "shorthand", "retype", "retype", "draw", "pool_twin", "pool_twin", "rsources", "subst_fail", "rmatmul", "rmatmul"]
 
 
 def gen_cases(rng, tier):
@@ -42,6 +42,8 @@ def gen_cases(rng, tier):
                 ops.append(["pool_twin", r[0], rng.choice(["float", "Fraction", "scale2", "scale3"])])
             elif k == "subst_fail":
                 ops.append(["subst_fail", r[0], rng.randint(1, 4), rng.randint(0, 5)])
+            elif k == "rmatmul":
+                ops.append(["rmatmul", r[0], rng.choice([0, 0, 1, 2, 3]), rng.choice([0, 0, 1, 2])])
             elif k == "matmul_p":
                 ops.append(["matmul_p", rng.choice([0, 1, 2, -1]), r[0]])
             elif k == "pool":
@@ -125,6 +127,22 @@ def impl_run(case):
                 items = [[gens.q(i), 1] for i in (range(1, n + 1) if n > 0 else range(n, 0))]
                 rop = ["const", items]
                 res = ("H", H(v))
+            elif k == "rmatmul":
+                # n @ r builds a new roller (also when r is itself a repetition and n is 0 or 1); r is as it was
+                ri_ = pick("R", op[1])
+                if ri_ is None:
+                    continue
+                r0 = pop[ri_][1]
+                first = op[2] @ r0
+                i1 = add("R", first)
+                resolved.append(["roller", [ri_], 0])
+                results.append({"ok": i1})
+                check(step)
+                second = first @ op[3] if step % 2 else op[3] @ first
+                rop = ["roller", [i1], 0]
+                res = ("R", second)
+                if second is first:
+                    problems.append(f"n @ (repeated roller) handed back its operand at step {step}")
             elif k == "rsources":
                 # the sequence of sources a roller hands out cannot be used to rewrite the roller
                 ri_ = pick("R", op[1])
